@@ -92,7 +92,7 @@ func (impl Implementation) Dgeev(jobvl lapack.LeftEVJob, jobvr lapack.RightEVJob
 		panic(badLdVR)
 	case lwork < minwrk && lwork != -1:
 		panic(badLWork)
-	case len(work) < lwork:
+	case len(work) < max(1, lwork):
 		panic(shortWork)
 	}
 
